@@ -368,6 +368,35 @@ func init() {
 			def(f[1], s)
 		}
 
+		// the float branch of parseField: ParseFloat's NaN/Inf results are passed on (RowBuilder.AddSimpleField
+		// rejects them, and with them the whole line); only a syntax error makes the field a "bad field"
+		floatBranch := ""
+		if pf := FindFunc(ip, "", "parseField"); pf != nil {
+			ast.Inspect(pf.Body, func(n ast.Node) bool {
+				cc, ok := n.(*ast.CaseClause)
+				if !ok || cc.List != nil {
+					return true
+				}
+				var parts []string
+				has := false
+				for _, st := range cc.Body {
+					txt := c16Src(fsetI, st)
+					parts = append(parts, txt)
+					if strings.Contains(txt, "strconv.ParseFloat") && !strings.Contains(txt, "switch") {
+						has = true
+					}
+				}
+				if has {
+					floatBranch = strings.Join(parts, " ; ")
+				}
+				return true
+			})
+		}
+		if floatBranch == "" {
+			return "", fmt.Errorf("float branch of influx parseField not found")
+		}
+		def("influxParseFieldFloatBranchSrc", floatBranch)
+
 		// --- models/limits.go
 		fsetL, lm, err := ParseFile(repo, "models/limits.go")
 		if err != nil {
